@@ -79,7 +79,11 @@ class LtlPastifier(LtlAstVisitor):
 
     def visitVariable(self, node, *args, **kwargs):
         horizon = args[0]
-        node = Variable(node.var, node.field, node.io_type)
+        var = Variable(node.var, node.field, node.io_type)
+        # the name of a variable keeps denoting the variable, not the delayed copy of this occurrence
+        d = self.ast.phi_name_to_node_dict
+        d.update({k: var for k, v in d.items() if v == node})
+        node = var
         for i in range(horizon):
             node = Previous(node)
         return node
